@@ -161,8 +161,9 @@ func runC07(c *Ctx) {
 		}
 	}
 	c.Sample(map[string]interface{}{"batch": bs[len(bs)/2], "chunk_sizes": chunkSizes})
+	runC07Long(c)
 	c.Meta(map[string]interface{}{
-		"rule":    "on every base state (BFS to the stated depth) every batch of size 0..max over the member menu {fresh, fresh colliding on K / on N, update of a stored object, update onto another object's key, invalid after Transform, wrong type, the same pointer again} at every position is passed to InsertOrUpdateMany, and (size >= 2) to InsertOrUpdateBulk with every chunk size; (n, err) = reference fold; a batch that stored nothing leaves the observation vector and the files unchanged; full sweep afterwards. Non-trivial = distinct (state, batch, chunk size).",
+		"rule":    "(long batches: batches of 5 and 8 (thorough 5..12) objects with no offender or one offender - duplicate of the first member, of the previous member, of a stored object, or invalid - at every position, through InsertOrUpdateMany and through InsertOrUpdateBulk with every chunk size 1..n+1, on collections holding 1 or 4 objects: (n, error class) = fold of atomic chunks, stored set, Count, unique search, Control, again after Close and Open.) on every base state (BFS to the stated depth) every batch of size 0..max over the member menu {fresh, fresh colliding on K / on N, update of a stored object, update onto another object's key, invalid after Transform, wrong type, the same pointer again} at every position is passed to InsertOrUpdateMany, and (size >= 2) to InsertOrUpdateBulk with every chunk size; (n, err) = reference fold; a batch that stored nothing leaves the observation vector and the files unchanged; full sweep afterwards. Non-trivial = distinct (state, batch, chunk size).",
 		"batches": len(bs), "max_batch": maxBatch, "chunk_sizes": chunkSizes, "configs": cfgs, "base_depth": depth,
 	})
 }
